@@ -307,3 +307,26 @@ func VP_C04_dsc() {
 	vpAssert("program-between-comments-executed", defined)
 	vpCover("done")
 }
+
+// C10 K1: every name the tokenizer can produce is accepted by Name.PS (no panic) and reads back
+// identically, so a font that was read can always be written again.
+func VP_C10_names() {
+	vpUnwind(400)
+	n := vpParam("N", 3)
+	body := vpBytes("t", n)
+	text := append([]byte{'/'}, body...)
+	text = append(text, ' ')
+	sc := newScanner(&vpReader{data: text, mode: 0, faultAt: -1, name: "r"})
+	o, err := sc.ScanToken()
+	name, isName := o.(Name)
+	vpAssert("name-token", err == nil && isName)
+	if err != nil || !isName {
+		return
+	}
+	ps := name.PS() // must not panic
+	sc2 := newScanner(&vpReader{data: []byte(ps + " "), mode: 0, faultAt: -1, name: "r2"})
+	o2, err2 := sc2.ScanToken()
+	name2, isName2 := o2.(Name)
+	vpAssert("name-survives-write-and-read", err2 == nil && isName2 && name2 == name)
+	vpCover("done")
+}
